@@ -340,14 +340,15 @@ int main(int argc, char **argv) {
 		world_done();
 		return vh_finish();
 	}
-	int depth = atoi(vh_arg(0, "5"));
+	int depth_lo = atoi(vh_arg(0, "5")), depth_hi = atoi(vh_arg(1, vh_arg(0, "5")));   /* iterative deepening: every depth is completed for all subtrees before the next one starts */
 	static const fcfg CF[] = {
 		{ 2, 2, 1, true, false }, { 2, 2, 1, true, true }, { 0, MTBL_FILESET_RELOAD_INTERVAL_NEVER, 1, true, false }, { MTBL_FILESET_RELOAD_INTERVAL_NEVER, 2, 2, true, true },
 		{ 2, 0, 0, false, false }, { 2, 2, 2, false, true }, { MTBL_FILESET_RELOAD_INTERVAL_NEVER, MTBL_FILESET_RELOAD_INTERVAL_NEVER, 1, true, true }, { 0, 0, 0, true, false },
 	};
 	int ncf = vh_thorough ? 8 : 4;
 	/* one configuration per group of shards: the BFS itself is sequential; shards take different configurations and initial prefixes */
-	uint64_t idx = 0;
+	for (int depth = depth_lo; depth <= depth_hi; depth++) {
+	uint64_t idx = 0; bool complete = true;
 	for (int ci = 0; ci < ncf; ci++) {
 		/* split each configuration's search by its first operation so that several shards share one configuration */
 		CFG = CF[ci];
@@ -356,7 +357,7 @@ int main(int argc, char **argv) {
 		int first[64]; int nf = fs_alphabet(NULL, first, 64); fs_close_sys(NULL);
 		for (int fi = 0; fi < nf; fi++) {
 			if (!vh_mine(idx++)) continue;
-			if (vh_time_up() || vh_too_many()) goto done;
+			if (vh_time_up() || vh_too_many()) { complete = false; goto done; }
 			/* search the subtree below `first[fi]` (and, when warm, below the warm-up prefix) */
 			int pre[8], np = 0;
 			if (CFG.warm) { pre[np++] = OP_OBSERVE + 0; pre[np++] = OP_OBSERVE + 1; }
@@ -368,8 +369,11 @@ int main(int argc, char **argv) {
 			BS.nops = 0;
 			bfs_run(&BS);
 			vh_case_end();
-			vh_sig(vh_mix(ci, first[fi]));
+			vh_sig(vh_mix(vh_mix(ci, first[fi]), depth));
+			if (vh_incomplete) complete = false;
 		}
+	}
+	if (complete) vh_max("max_depth_completed_by_this_shard", depth);
 	}
 done:
 	world_done();
